@@ -88,7 +88,8 @@ var sdsCreate sync.Mutex
 
 func newSdsSUT(dir string) *sdsSUT {
 	must(os.MkdirAll(dir, 0o755))
-	base := newSUT(0.5, 0, false)
+	// ratio / jitter do not matter here (rotation tasks are run by the script): vary them
+	base := newSUT([]float64{0.5, 0.25, 0.75, 1}[len(dir)%4], []float64{0, 0.3}[len(dir)%2], false)
 	s := &sdsSUT{sut: base, clients: map[int]*sdsClient{}, dir: dir, signer: 'A'}
 	var scriptMu sync.Mutex
 	base.ca.script = func(int) caOutcome {
@@ -521,7 +522,7 @@ func genSds(seed uint64, n int, path string) {
 		rootDirty := false // the CA's root was changed since the last CA call that certainly happened
 		nops := 3 + r.Intn(9)
 		for k := 0; k < nops; k++ {
-			switch x := r.Intn(20); {
+			switch x := r.Intn(22); {
 			case x < 7 && next < 5:
 				res := wire.Pick(r, []string{"w", "w", "r", "r", "wr"})
 				out.Line("sub", strconv.Itoa(next), res)
@@ -548,9 +549,9 @@ func genSds(seed uint64, n int, path string) {
 					out.Line("drop", strconv.Itoa(id))
 					delete(live, id)
 				}
-			case x < 14:
+			case x < 12:
 				out.Line("rotate")
-			case x < 15:
+			case x < 14:
 				out.Line("firestale")
 			case x < 16:
 				// whether a ROOTCA subscriber re-requests before or after the cache is emptied is a race of
